@@ -111,6 +111,8 @@ def run(ctx):
             st["distinct"].add(r["query"])
         if len(st["samples"]) < 3 and 2 <= len(rows) <= 4:
             st["samples"].append({"query": r["query"], "rows": [list(x) for x in rows]})
+    from .common import replay_generic_known
+    replay_generic_known(ctx, 'C08')
     ctx.coverage.update(
         evaluations=len(jobs), distinct_nontrivial=len(st["distinct"]), traces_validated_against_impl=st["agreed"],
         rule="random trees x grouping keys from ext, dir, is_dir, mode, uid, length(name) and pairs x 1-3 aggregates x optional WHERE x optional ORDER BY on the key or an integer aggregate (asc/desc): one row per distinct key value among the matching entries (from the same query without aggregates), each group's aggregates = exact aggregates of its members, group COUNTs and SUMs add up to the ungrouped COUNT and SUM of the binary, ordered when requested. non-trivial = at least two groups",
